@@ -289,6 +289,15 @@ def float_relations(chk: Check, n):
             viol += sum(1 for a, b in zip(vals, vals[1:]) if b < a - 1e-12)
     chk.cov["scipy_norm_shift_worst_err"] = worst
     chk.cov["scipy_nct_mono_violations"] = viol
+    # TTestMonoDf: at a fixed non-centrality in the direction of the alternative the level-alpha one-sided t test does not
+    # lose power with more degrees of freedom
+    viol_df = 0
+    for a_ in (0.01, 0.05, 0.1):
+        for nc in (0.0, 0.5, 1.5, 3.0):
+            g = [st.nct(df, nc).sf(st.t(df).isf(a_)) for df in (2, 3, 5, 10, 30, 100, 998)]
+            l_ = [st.nct(df, -nc).cdf(st.t(df).ppf(a_)) for df in (2, 3, 5, 10, 30, 100, 998)]
+            viol_df += sum(1 for u, w in zip(g, g[1:]) if w < u - 1e-10) + sum(1 for u, w in zip(l_, l_[1:]) if w < u - 1e-10)
+    chk.cov["scipy_ttest_mono_df_violations"] = viol_df
 
 
 def main():
@@ -297,8 +306,10 @@ def main():
         "assumed of the families (hypotheses AltLaws / NormShift / NctMono / Prims.Laws): norm(loc) is the shift of norm(0); "
         "nct(df, nc) is stochastically increasing in nc; cdf monotone with values in [0,1], sf = 1 - cdf — sampled on scipy "
         "each run (coverage.scipy_*), not proved; scipy's nct returns NaN in the far tail (handled by the code since fix 8d7e1b0)",
-        "monotonicity is proved for the Z test (one-sided) and, under NctMono, for the one-sided t test in the effect; the "
-        "two-sided cases and monotonicity in n for the t test are checked on the real code, not proved",
+        "monotonicity is proved for the Z test (one-sided) and, under NctMono, for the one-sided t test in the effect; in n "
+        "for the one-sided t test under NctMono + TTestMonoDf (the level-alpha t test does not lose power with more degrees "
+        "of freedom; sampled on scipy: coverage.scipy_ttest_mono_df_violations) given non-decreasing degrees of freedom "
+        "(proved for the pooled test); the two-sided cases are checked on the real code, not proved",
         "the effect x n_obs grid of solve_power_from_aggregates is hand-mirrored by the harness (rows_eq_grid)",
     ]
     chk.assumptions = ["ratio > 0, each group larger than one observation, 0 < alpha < 1"]
